@@ -231,7 +231,7 @@ func runLapackCase(t *vlib.T, lm *lmethod, vals map[string]int, blocked bool) {
 			variants = append(variants, map[string]float64{a.name: x})
 		}
 	}
-	ninit := 1
+	ninit := imax(1, r.variants)
 	for _, a := range r.args {
 		ninit = imax(ninit, len(a.inits))
 	}
